@@ -332,19 +332,17 @@ fn create_mangled_for_file(
 
 fn add_part(mangled: &mut String, part: &MangledPart) {
     if part.text.starts_with(|ch: char| ch.is_ascii_digit()) {
-        // if the part text starts with a number,
-        // then prepend a lowercase version of the code
-        mangled.push_str(&(part.text.len() + 1).to_string());
+        // if the part text starts with a number, then something has to stand between the
+        // length and the text: a '.' and a lowercase version of the code.
+        //
+        // The '.' is what keeps this apart from a part that really begins with that letter
+        // ("/src/1/file.capy" and "/src/f1/file.capy" used to get the same name): no part can
+        // begin with a '.', `FileName::get_components` escapes every '.' of a file or folder
+        // name, and the names of globals are identifiers.
+        mangled.push_str(&(part.text.len() + 2).to_string());
+        mangled.push('.');
         mangled.push(part.kind.to_code().to_ascii_lowercase());
         mangled.push_str(&part.text);
-
-        // TODO: what happens in the following situation (where both files exist):
-        // - "/src/1/file.capy"
-        // - "/src/f1/file.capy"
-        // similarly, what happens if the folder contains a '.' which gets converted to a dash
-        // by `FileName::get_components`:
-        // - "/src/program.app/file.capy"
-        // - "/src/program-app/file.capy"
     } else {
         // if the part text doesn't start with a number, then print it normally
         mangled.push_str(&part.text.len().to_string());
